@@ -17,6 +17,7 @@ TECHNIQUE = "runtime monitoring: reference-model oracle (own Sawle-Ghosh double 
 RULE = ("every charge pattern of length <= Lp (quick 10, thorough 12) with a random spelling; random sequences of all "
         "classes (quick <= 300, thorough <= 400) and long repetitive / block sequences up to 600 residues; published "
         "anchors sv1 / sv30; distinct = distinct charge pattern; non-trivial = at least two charged residues")
+RULE += ("; added after the mutation rounds: several 1000-2000-residue chains analysed in one process (longer first, one repeated); every value asked twice; objects from lower-case text / around a backend object; the first cases of every shard are judged again at its end")
 EXHAUSTIVE = {"quick": False, "thorough": False}
 EXHAUSTIVE_NOTE = {"quick": "all patterns of length <= 10 (88,572)", "thorough": "all patterns of length <= 12 (797,160)"}
 ASSUMPTIONS = [
